@@ -20,5 +20,9 @@ def run(ctx, crate):
     D.rule_bar_rows_split(ctx, crate)
     D.rule_height_guard(ctx, crate)
     D.rule_painted_line_terminated(ctx, crate)
+    # "clears remove all of their rows and nothing else", also for a bar that the height test never painted: rows kept as
+    # zombie text are exactly the rows the erase count released
+    from .c03 import rule_row_transfer_pairing
+    rule_row_transfer_pairing(ctx, crate)
     D.rule_text_not_counted(ctx, crate)
     D.rule_draw_order(ctx, crate)
